@@ -155,6 +155,48 @@ Theorem C18_model_satisfies_oracle_sys : forall now ks n h j,
 Proof. exact model_satisfies_oracle_sys. Qed.
 Print Assumptions C18_model_satisfies_oracle_sys.
 
+(** connections come and go on one middleware value ([lsys_run]: a slot holds a
+    connection from [LStart] to [LEnd] and may be used again afterwards).
+    [connection_fresh]: after any history whatsoever in its slot, a connection
+    that begins shows exactly what a session run from the initial state shows:
+    nothing an earlier connection did or left behind (subscriptions it did not
+    close, event ids it saw) is visible to a later one *)
+Theorem C18_connection_fresh : forall ks now c before ops,
+  snd (slot_run ks now c (before ++ LStart :: List.map LOp ops)) =
+  snd (slot_run ks now c before) ++ ([], []) :: snd (sess_run now (stack_init ks) ops).
+Proof. exact connection_fresh. Qed.
+Print Assumptions C18_connection_fresh.
+
+(** [slots_independent]: with any number of slots and any interleaving of
+    connections beginning, talking and ending, what a slot shows is what
+    running its own history alone gives *)
+Theorem C18_slots_independent : forall ks now h sy j c,
+  nth_error sy j = Some c ->
+  nth_error (fst (lsys_run ks now sy h)) j = Some (fst (slot_run ks now c (proj j h))) /\
+  proj j (combine (List.map fst h) (snd (lsys_run ks now sy h))) = snd (slot_run ks now c (proj j h)).
+Proof. exact slots_independent. Qed.
+Print Assumptions C18_slots_independent.
+
+(** ... and every slot's view is accepted by the oracle of the correspondence
+    check, which judges every connection from the initial state of the text *)
+Theorem C18_life_model_satisfies_oracle : forall now ks n h j,
+  Forall wf_k ks -> (j < n)%nat ->
+  sp_life_run now ks None (proj j h)
+              (proj j (combine (List.map fst h) (snd (lsys_run ks now (lsys_init n) h)))) = true.
+Proof. exact life_model_satisfies_oracle. Qed.
+Print Assumptions C18_life_model_satisfies_oracle.
+
+(** a concrete instance: N = 1; the first connection opens a and ends without
+    closing it; the connection that begins afterwards in the same slot opens b *)
+Example C18_example_reconnect :
+  let a := txt "a" in let b := txt "b" in
+  snd (slot_run [MaxSubs 1] 0 None
+         [LStart; LOp (OClient (CReq a [])); LOp (OClient (CReq b [])); LEnd; LStart; LOp (OClient (CReq b []))]) =
+  [([], []); ([CReq a []], []);
+   ([], [SClosed b [] (txt "too many req: max subscriptions is 1")]);
+   ([], []); ([], []); ([CReq b []], [])].
+Proof. reflexivity. Qed.
+
 (** non-trivial concrete instances: N = 2 with a, b open rejects c, accepts a
     again, and accepts c after CLOSE a; window 2 after x y x z rejects x (LRU:
     x was promoted) but has forgotten y *)
